@@ -505,7 +505,7 @@ func (s *Styler) Value(v string, kind string) *Node {
 func (s *Styler) dqEscapes(n *Node, v string) {
 	// choose up to three characters of the value and write each as an escape sequence: \xHH, \uHHHH,
 	// \UHHHHHHHH or, where YAML has one, the named form
-	named := map[rune]string{' ': `\ `, '/': `\/`, '\t': "\\\t", 0: `\0`, 7: `\a`, 8: `\b`, 0xb: `\v`, 0xc: `\f`, 0xd: `\r`, 0x1b: `\e`,
+	named := map[rune]string{'\'': `\'`, ' ': `\ `, '/': `\/`, '\t': "\\\t", 0: `\0`, 7: `\a`, 8: `\b`, 0xb: `\v`, 0xc: `\f`, 0xd: `\r`, 0x1b: `\e`,
 		0x85: `\N`, 0xa0: `\_`, 0x2028: `\L`, 0x2029: `\P`}
 	seen := map[rune]bool{}
 	var cands []rune
